@@ -167,7 +167,7 @@ func ruleHybridCandidates(r *Run, k *hybridKind) {
 			return
 		}
 		mk, ok := ia.X.(*ssa.MakeSlice)
-		if !ok || types.TypeString(mk.Type(), nil) != "[]uint32" {
+		if !ok || tstr(mk.Type(), nil) != "[]uint32" {
 			return
 		}
 		if strings.Contains(c.S(st.Val), "GetId(") && strings.Contains(c.S(st.Val), "MetadataSearch.Execute(") {
@@ -210,7 +210,7 @@ func ruleHybridCandidates(r *Run, k *hybridKind) {
 		site := w.InstrPos(call) + " " + name
 		arg := call.Call.Args[0]
 		modality := "vector"
-		if strings.Contains(types.TypeString(call.Call.Value.Type(), qual), "Text") {
+		if strings.Contains(tstr(call.Call.Value.Type(), qual), "Text") {
 			modality = "text"
 		}
 		okArg := isCand(arg)
@@ -225,7 +225,7 @@ func ruleHybridCandidates(r *Run, k *hybridKind) {
 	}
 	// the restriction precedes the sub-search Execute and is unconditional on the filtered path
 	for _, ex := range invokesOf(fn, "Execute") {
-		recvT := types.TypeString(ex.Call.Value.Type(), qual)
+		recvT := tstr(ex.Call.Value.Type(), qual)
 		if !strings.Contains(recvT, "VectorSearch") && !strings.Contains(recvT, "TextSearch") {
 			continue
 		}
@@ -461,7 +461,7 @@ func ruleHybridBranch(r *Run, k *hybridKind) {
 	// end: the make of the result slice
 	var end *ssa.BasicBlock
 	allInstrs(fn, func(in ssa.Instruction) {
-		if mk, ok := in.(*ssa.MakeSlice); ok && strings.Contains(types.TypeString(mk.Type(), qual), "HybridSearchResult") && start != nil && start.Dominates(in.Block()) && in.Block() != start {
+		if mk, ok := in.(*ssa.MakeSlice); ok && strings.Contains(tstr(mk.Type(), qual), "HybridSearchResult") && start != nil && start.Dominates(in.Block()) && in.Block() != start {
 			if end == nil {
 				end = in.Block()
 			}
@@ -665,7 +665,7 @@ func ruleHybridRank(r *Run, k *hybridKind) {
 	found := false
 	allInstrs(fn, func(in ssa.Instruction) {
 		sl, ok := in.(*ssa.Slice)
-		if !ok || sl.High == nil || !strings.Contains(types.TypeString(sl.Type(), qual), "HybridSearchResult") {
+		if !ok || sl.High == nil || !strings.Contains(tstr(sl.Type(), qual), "HybridSearchResult") {
 			return
 		}
 		if c.S(sl.High) != "P0."+kField {
@@ -709,7 +709,7 @@ func ruleHybridRank(r *Run, k *hybridKind) {
 	for _, call := range invokesOf(fn, "WithQuery") {
 		arg := c.S(call.Call.Args[0])
 		ok := strings.Contains(arg, "P0."+builderField(w, k.SearchT, "WithVector")) || strings.Contains(arg, "P0."+builderField(w, k.SearchT, "WithText"))
-		r.Check(ok, "C05.PARAMS", "params:query:"+types.TypeString(call.Call.Value.Type(), qual), w.InstrPos(call)+" "+name, "sub-search receives the hybrid query", "sub-search query is "+arg)
+		r.Check(ok, "C05.PARAMS", "params:query:"+tstr(call.Call.Value.Type(), qual), w.InstrPos(call)+" "+name, "sub-search receives the hybrid query", "sub-search query is "+arg)
 	}
 }
 
@@ -906,7 +906,7 @@ func ruleMetaAtomicAdd(r *Run, rule string, k *metaKind) {
 		if !ok || !ta.CommaOk {
 			return
 		}
-		t := types.TypeString(ta.AssertedType, nil)
+		t := tstr(ta.AssertedType, nil)
 		if domInstr(first, ta) {
 			handled[t] = true
 			lastApply = ta
@@ -937,7 +937,7 @@ func ruleMetaAtomicAdd(r *Run, rule string, k *metaKind) {
 		r.Analysed(w.Name(g))
 		allInstrs(g, func(gi ssa.Instruction) {
 			if ta, ok := gi.(*ssa.TypeAssert); ok && ta.CommaOk {
-				validated[types.TypeString(ta.AssertedType, nil)] = true
+				validated[tstr(ta.AssertedType, nil)] = true
 			}
 		})
 	})
